@@ -11,12 +11,45 @@ use hpo::Ontology;
 use serde_json::{json, Value};
 use std::collections::{BTreeMap, BTreeSet};
 
+/// `src.sub_ontology(root, leaves)` under catch_unwind. The leaves are handed over in one of four shapes, chosen by
+/// the arguments: a Vec, a lazy exact-size iterator, a filtering adapter over all terms of the ontology and `&HpoSet`
+/// (the last two hand the collection over in id order and without duplicates - a collection of leaves is a set).
 fn sub(src: &Ontology, root: u32, leaves: &[u32]) -> Result<Result<Ontology, String>, String> {
-    guard(|| src.sub_ontology(src.hpo(root).unwrap(), leaves.iter().map(|l| src.hpo(*l).unwrap()).collect::<Vec<_>>()).map_err(|e| e.to_string()))
+    use hpo::annotations::AnnotationId;
+    let shape = (root as usize + leaves.len() + leaves.iter().map(|l| *l as usize).sum::<usize>()) % 4;
+    guard(|| {
+        let r = src.hpo(root).unwrap();
+        match shape {
+            0 => src.sub_ontology(r, leaves.iter().map(|l| src.hpo(*l).unwrap()).collect::<Vec<_>>()),
+            1 => src.sub_ontology(r, leaves.iter().map(|l| src.hpo(*l).unwrap())),
+            2 => src.sub_ontology(r, src.iter().filter(|t| leaves.contains(&t.id().as_u32()))),
+            _ => {
+                let mut g = hpo::term::HpoGroup::new();
+                for l in leaves {
+                    g.insert(*l);
+                }
+                let set = hpo::HpoSet::new(src, g);
+                src.sub_ontology(r, &set)
+            }
+        }
+        .map_err(|e| e.to_string())
+    })
+}
+
+pub type Up = BTreeMap<u32, BTreeMap<u32, usize>>;
+
+/// Some leaf has more than one shortest parent chain to root: which of them is kept is not fixed by the statement
+/// (a leaf with a unique chain has exactly one term per distance 0..=d on its shortest chains).
+fn has_ties(up: &Up, root: u32, leaves: &[u32]) -> bool {
+    leaves.iter().any(|l| match up[l].get(&root) {
+        None => false,
+        Some(c) => up.keys().filter(|t| matches!((up[l].get(*t), up[*t].get(&root)), (Some(a), Some(b)) if a + b == *c)).count() > c + 1,
+    })
 }
 
 /// `own.sub_ontology` called with root / leaf handles taken from `other` (same terms and links): the result
-/// must be the one obtained with `own`'s handles.
+/// must be the one obtained with `own`'s handles - or, when a leaf has several shortest chains, any result the
+/// statement admits.
 pub fn foreign_handles(ctx: &mut Ctx, own: &Ontology, other: &Ontology, f: &Facts, root: u32, leaves: &[u32], what: &str) {
     ctx.exec();
     ctx.validated();
@@ -34,75 +67,93 @@ pub fn foreign_handles(ctx: &mut Ctx, own: &Ontology, other: &Ontology, f: &Fact
         _ => Some(format!("own handles: {:?}; foreign handles: {:?}", a.as_ref().map(|r| r.as_ref().map(|_| ())), b.as_ref().map(|r| r.as_ref().map(|_| ())))),
     };
     if let Some(d) = same {
-        ctx.violation("Ontology::sub_ontology", "result depends on which Ontology instance the root / leaf handles were taken from", json!({"family": what, "source": f.to_json(), "root": root, "leaves": leaves, "handles_from": "an instance with the same terms and links but no records", "difference": d}));
+        let case = || json!({"family": what, "source": f.to_json(), "root": root, "leaves": leaves, "handles_from": "an instance with the same terms and links but no records", "difference": d});
+        // two different results are both fine when the statement admits both: some leaf has several shortest chains
+        // (which one is kept may depend on anything); the second result is then judged on its own
+        if matches!((&a, &b), (Ok(Ok(_)), Ok(Ok(_)))) {
+            let r = RefOnt::derive(f);
+            let up: Up = r.terms.keys().map(|i| (*i, r.up_distances(*i))).collect();
+            if has_ties(&up, root, leaves) {
+                let is_mod = |t: u32| own.hpo(t).map(|x| x.is_modifier()).unwrap_or(false);
+                check_result(ctx, b, &r, &is_mod, &up, root, leaves, &case, "[handles of another instance] ");
+                return;
+            }
+        }
+        ctx.violation("Ontology::sub_ontology", "result depends on which Ontology instance the root / leaf handles were taken from", case());
     }
 }
 
+/// The statement's demands on one result: Err <=> a leaf outside root's subtree; contains root and leaves; only terms
+/// on shortest chains; names and flags copied; induced links; original distances; records kept iff directly annotated to
+/// a retained non-modifier term, with the retained subset of their terms; consistent with its own facts.
+/// Returns the result and its observation when all of it could be judged.
 #[allow(clippy::too_many_arguments)]
-pub fn check_one(ctx: &mut Ctx, src: &Ontology, r: &RefOnt, mode: Mode, up: &BTreeMap<u32, BTreeMap<u32, usize>>, root: u32, leaves: &[u32], case: &dyn Fn() -> Value, custom_roots: Option<&BTreeSet<u32>>) {
-    let is_mod = |t: u32| -> bool {
-        match custom_roots {
-            Some(roots) => r.anc_incl(t).iter().any(|a| roots.contains(a)),
-            None => r.is_modifier(t, mode),
-        }
-    };
-    ctx.exec();
-    ctx.validated();
-    ctx.transitions(1 + leaves.len() as u64);
+fn check_result(ctx: &mut Ctx, res: Result<Result<Ontology, String>, String>, r: &RefOnt, is_mod: &dyn Fn(u32) -> bool, up: &Up, root: u32, leaves: &[u32], case: &dyn Fn() -> Value, tag: &str) -> Option<(Ontology, Obs)> {
     let site = "Ontology::sub_ontology";
     let valid = leaves.iter().all(|l| *l == root || r.terms[l].ancestors.contains(&root));
-    let res = sub(src, root, leaves);
     let s = match (res, valid) {
         (Err(p), _) => {
-            ctx.violation(site, "panics", json!({"case": case(), "observed": p}));
-            return;
+            ctx.violation(site, &format!("{tag}panics"), json!({"case": case(), "observed": p}));
+            return None;
         }
-        (Ok(Err(_)), false) => return,
+        (Ok(Err(_)), false) => return None,
+        // (sources whose treatment is open - two records of a kind with one name - may be refused as a whole)
+        (Ok(Err(_)), true) if tag == OPEN_SOURCE => {
+            ctx.bump("open_input_refused", 1);
+            return None;
+        }
         (Ok(Err(e)), true) => {
-            ctx.violation(site, "refused although every leaf is root or a descendant of root", json!({"case": case(), "observed": e}));
-            return;
+            ctx.violation(site, &format!("{tag}refused although every leaf is root or a descendant of root"), json!({"case": case(), "observed": e}));
+            return None;
         }
         (Ok(Ok(_)), false) => {
-            ctx.violation(site, "accepted although a leaf is neither root nor a descendant of root", json!({"case": case()}));
-            return;
+            ctx.violation(site, &format!("{tag}accepted although a leaf is neither root nor a descendant of root"), json!({"case": case()}));
+            return None;
         }
         (Ok(Ok(s)), true) => s,
     };
     let obs = match Obs::of(&s) {
         Ok(o) => o,
         Err(i) => {
-            ctx.violation(&i.site, "[sub_ontology] read API inconsistent or panicking", json!({"case": case(), "observed": i.what}));
-            return;
+            ctx.violation(&i.site, &format!("{tag}[sub_ontology] read API inconsistent or panicking"), json!({"case": case(), "observed": i.what}));
+            return None;
         }
     };
     let retained: BTreeSet<u32> = obs.terms.iter().map(|t| t.id).collect();
     // contains root and every leaf
     if !retained.contains(&root) || leaves.iter().any(|l| !retained.contains(l)) {
-        ctx.violation(site, "result does not contain root and every leaf", json!({"case": case(), "retained": retained}));
-        return;
+        ctx.violation(site, &format!("{tag}result does not contain root and every leaf"), json!({"case": case(), "retained": retained}));
+        return None;
     }
     // only terms on a shortest chain from some leaf to root
     for t in &retained {
-        let on_chain = leaves.iter().any(|l| match (up[l].get(t), up[t].get(&root), up[l].get(&root)) {
-            (Some(a), Some(b), Some(c)) => a + b == *c,
-            _ => false,
-        });
+        let on_chain = up.contains_key(t)
+            && leaves.iter().any(|l| match (up[l].get(t), up[t].get(&root), up[l].get(&root)) {
+                (Some(a), Some(b), Some(c)) => a + b == *c,
+                _ => false,
+            });
         if !on_chain {
-            ctx.violation(site, "retains a term that lies on no shortest chain from a leaf to root", json!({"case": case(), "retained": retained, "term": t}));
-            return;
+            ctx.violation(site, &format!("{tag}retains a term that lies on no shortest chain from a leaf to root"), json!({"case": case(), "retained": retained, "term": t}));
+            return None;
         }
     }
     // names and flags copied, induced parent links
     for t in &obs.terms {
         let st = &r.terms[&t.id];
-        if t.name != st.name || t.obsolete != st.obsolete || t.replacement != st.replacement {
-            ctx.violation(site, "name, obsolete flag or replacement of a retained term is not copied", json!({"case": case(), "term": t.id, "observed": [json!(t.name), json!(t.obsolete), json!(t.replacement)]}));
-            return;
+        // a replacement whose target is not part of the result may be kept or cleared (the statement says "copies
+        // names and flags"; a result that hands out no id it does not contain is as defensible as a verbatim copy)
+        let replacement_ok = match st.replacement {
+            Some(x) if !retained.contains(&x) => t.replacement == Some(x) || t.replacement.is_none(),
+            other => t.replacement == other,
+        };
+        if t.name != st.name || t.obsolete != st.obsolete || !replacement_ok {
+            ctx.violation(site, &format!("{tag}name, obsolete flag or replacement of a retained term is not copied"), json!({"case": case(), "term": t.id, "observed": [json!(t.name), json!(t.obsolete), json!(t.replacement)]}));
+            return None;
         }
         let want: Vec<u32> = st.parents.iter().copied().filter(|p| retained.contains(p)).collect();
         if t.parents != want {
-            ctx.violation(site, "parent links are not exactly the original links between retained terms", json!({"case": case(), "term": t.id, "observed": t.parents, "expected": want}));
-            return;
+            ctx.violation(site, &format!("{tag}parent links are not exactly the original links between retained terms"), json!({"case": case(), "term": t.id, "observed": t.parents, "expected": want}));
+            return None;
         }
     }
     // each leaf reaches root at its original distance (a complete shortest chain is retained)
@@ -118,8 +169,8 @@ pub fn check_one(ctx: &mut Ctx, src: &Ontology, r: &RefOnt, mode: Mode, up: &BTr
         let d_sub = sr.up_distances(*l).get(&root).copied();
         let d_src = up[l].get(&root).copied();
         if d_sub != d_src {
-            ctx.violation(site, "a leaf does not reach root at its original distance", json!({"case": case(), "leaf": l, "distance_in_result": d_sub, "distance_in_source": d_src}));
-            return;
+            ctx.violation(site, &format!("{tag}a leaf does not reach root at its original distance"), json!({"case": case(), "leaf": l, "distance_in_result": d_sub, "distance_in_source": d_src}));
+            return None;
         }
     }
     // records: kept iff directly annotated to a retained non-modifier term; then exactly the retained subset of its terms
@@ -144,18 +195,54 @@ pub fn check_one(ctx: &mut Ctx, src: &Ontology, r: &RefOnt, mode: Mode, up: &BTr
             } else {
                 "a kept gene/disease is not linked to exactly the retained subset of its direct terms"
             };
-            ctx.violation(site, sig, json!({"case": case(), "kind": crate::model::KINDS[k].name(), "retained": retained, "observed": format!("{got:?}"), "expected": format!("{want:?}")}));
-            return;
+            ctx.violation(site, &format!("{tag}{sig}"), json!({"case": case(), "kind": crate::model::KINDS[k].name(), "retained": retained, "observed": format!("{got:?}"), "expected": format!("{want:?}")}));
+            return None;
         }
     }
     // closure, inheritance, information content on its own facts
     self_consistent(ctx, &s, "sub_ontology", Mode::Minimal, case);
-    // fixed point
+    Some((s, obs))
+}
+
+/// tag of `check_result` for sources that sub_ontology may refuse as a whole
+const OPEN_SOURCE: &str = "[same-named records] ";
+
+#[allow(clippy::too_many_arguments)]
+pub fn check_one(ctx: &mut Ctx, src: &Ontology, r: &RefOnt, mode: Mode, up: &Up, root: u32, leaves: &[u32], case: &dyn Fn() -> Value, custom_roots: Option<&BTreeSet<u32>>) {
+    check_one_tagged(ctx, src, r, mode, up, root, leaves, case, custom_roots, "")
+}
+
+#[allow(clippy::too_many_arguments)]
+fn check_one_tagged(ctx: &mut Ctx, src: &Ontology, r: &RefOnt, mode: Mode, up: &Up, root: u32, leaves: &[u32], case: &dyn Fn() -> Value, custom_roots: Option<&BTreeSet<u32>>, tag: &str) {
+    let is_mod = |t: u32| -> bool {
+        match custom_roots {
+            Some(roots) => r.anc_incl(t).iter().any(|a| roots.contains(a)),
+            None => r.is_modifier(t, mode),
+        }
+    };
+    ctx.exec();
+    ctx.validated();
+    ctx.transitions(1 + leaves.len() as u64);
+    let site = "Ontology::sub_ontology";
+    let Some((s, obs)) = check_result(ctx, sub(src, root, leaves), r, &is_mod, up, root, leaves, case, tag) else {
+        return;
+    };
+    // fixed point: cutting the result again with the same arguments gives the result - unless some leaf has several
+    // shortest chains: which one a call keeps is not fixed, so the second cut is then judged like the first, with the
+    // first result as its source
     match sub(&s, root, leaves) {
         Ok(Ok(s2)) => match Obs::of(&s2) {
             Ok(o2) => {
                 if let Some((site2, sig, det)) = o2.diff(&obs, true) {
-                    ctx.violation(&site2, &format!("[sub_ontology of the sub_ontology] not a fixed point: {sig}"), json!({"case": case(), "difference": det}));
+                    if has_ties(up, root, leaves) {
+                        let rs = RefOnt::derive(&obs.to_facts((0, 0, 0)));
+                        let up_s: Up = rs.terms.keys().map(|i| (*i, rs.up_distances(*i))).collect();
+                        // (modifier classification as the first result itself reports it)
+                        let mods: BTreeSet<u32> = obs.terms.iter().filter(|t| t.is_modifier).map(|t| t.id).collect();
+                        check_result(ctx, Ok(Ok(s2)), &rs, &|t| mods.contains(&t), &up_s, root, leaves, case, "[sub_ontology of the sub_ontology] ");
+                    } else {
+                        ctx.violation(&site2, &format!("[sub_ontology of the sub_ontology] not a fixed point: {sig}"), json!({"case": case(), "difference": det}));
+                    }
                 }
             }
             Err(i) => ctx.violation(&i.site, "[sub_ontology of the sub_ontology] read API inconsistent", json!({"case": case(), "observed": i.what})),
@@ -167,7 +254,7 @@ pub fn check_one(ctx: &mut Ctx, src: &Ontology, r: &RefOnt, mode: Mode, up: &BTr
 
 fn large(ctx: &mut Ctx) {
     let family = crate::props::common::large_family();
-    ctx.space("large-structured/roots-x-leaves", &format!("{} large shapes (records on the last terms, the middle and the top; gene 7 / OMIM 7 on every 2nd term, ORPHA 7 on the last; without and with custom modifier roots (3rd term; 3rd term + middle)) x roots {{HP:1, HP:118, middle}} x leaf collections {{last}}, {{last, middle}}, {{last two}}, {{every 9th term}}, {{last, last}}", family.len()));
+    ctx.space("large-structured/roots-x-leaves", &format!("{} large shapes (records on the last terms, the middle and the top; gene 7 / OMIM 7 on every 2nd term, ORPHA 7 on the last; 300 further genes, gene i on term i mod n; without and with custom modifier roots (3rd term; 3rd term + middle)) x roots {{HP:1, HP:118, middle}} x leaf collections {{last}}, {{last, middle}}, {{last two}}, {{every 9th term}}, {{last, last}}", family.len()));
     for (base, what) in &family {
         if !ctx.take() {
             continue;
@@ -190,8 +277,13 @@ fn large(ctx: &mut Ctx) {
             f.anns.push(Facts::ann(crate::model::Kind::Omim, 7, "Seven (omim)", Some(ids[i])));
         }
         f.anns.push(Facts::ann(crate::model::Kind::Orpha, 7, "Seven (orpha)", Some(ids[n - 1])));
+        // many records (more than an 8-bit counter or a small inline container holds): 300 genes, gene i on term
+        // i mod n only - kept iff that term is retained and no modifier term, a scattered subset
+        for i in 0..300usize {
+            f.anns.push(Facts::ann(crate::model::Kind::Gene, 2000 + i as u32, &format!("MANY{i}"), Some(ids[i % n])));
+        }
         let r = RefOnt::derive(&f);
-        let up: BTreeMap<u32, BTreeMap<u32, usize>> = ids.iter().map(|i| (*i, r.up_distances(*i))).collect();
+        let up: Up = ids.iter().map(|i| (*i, r.up_distances(*i))).collect();
         ctx.transitions(f.n_steps());
         let Ok(mut src) = drive::build(&f, Mode::Minimal) else {
             ctx.violation("Builder", "construction fails on valid facts", json!({"shape": what}));
@@ -225,12 +317,65 @@ fn large(ctx: &mut Ctx) {
     }
 }
 
+/// Sources in which records of one kind share their NAME (two genes SAME, two OMIM and two ORPHA diseases 'Same
+/// disease', annotated to different terms, and a bare gene of that name): a record is identified by its id - a
+/// re-annotation that goes through names would merge or drop them.
+fn same_named(ctx: &mut Ctx) {
+    let dags = crate::space::all_dags(3);
+    ctx.space("same-named-records/roots-x-leaves", &format!("{} labelled DAGs over [1, 118, 119] x 8 subsets S (the same-named fact sets of C02: genes 11 <- S, 12 <- complement(S), OMIM 1 <- S, 2 <- rot1(S), ORPHA 1 <- rot2(S), 2 <- S) built with defaults through the Builder and the decoder (a Builder, and a sub_ontology call, may refuse a second record of a name) x every root x all single leaves and ordered pairs", dags.len()));
+    for d in &dags {
+        for s in 0..8u32 {
+            if !ctx.take() {
+                continue;
+            }
+            ctx.state();
+            ctx.nontrivial();
+            let f = super::c02::same_named_facts(d, s);
+            let r = RefOnt::derive(&f);
+            let ids: Vec<u32> = f.terms.iter().map(|t| t.id).collect();
+            let up: Up = ids.iter().map(|i| (*i, r.up_distances(*i))).collect();
+            ctx.transitions(2 * f.n_steps());
+            let mut sources: Vec<(Ontology, &str)> = vec![];
+            match drive::build(&f, Mode::Defaults) {
+                Ok(o) => sources.push((o, "Builder::build_with_defaults")),
+                // unique names within a kind is a policy a Builder may have
+                Err(e) if e.starts_with("annotate_") => ctx.bump("open_input_refused", 1),
+                Err(e) => ctx.violation("Builder", "construction fails on valid facts", json!({"facts": f.to_json(), "observed": e})),
+            }
+            if let Ok(Ok(o)) = drive::from_bytes(&encode::encode(&f, &EncOpts::v(3))) {
+                sources.push((o, "from_bytes"));
+            }
+            let mut collections: Vec<Vec<u32>> = ids.iter().map(|a| vec![*a]).collect();
+            for a in &ids {
+                for b in &ids {
+                    if a != b {
+                        collections.push(vec![*a, *b]);
+                    }
+                }
+            }
+            for (src, path) in &sources {
+                for &root in &ids {
+                    for leaves in &collections {
+                        let case = || json!({"source": f.to_json(), "source_constructor": path, "root": root, "leaves": leaves});
+                        check_one_tagged(ctx, src, &r, Mode::Defaults, &up, root, leaves, &case, None, OPEN_SOURCE);
+                    }
+                }
+            }
+            ctx.sample(|| json!({"dag": d.describe(), "S": crate::space::bits(s, 3)}));
+        }
+    }
+}
+
 pub fn run(ctx: &mut Ctx) {
     let thorough = ctx.tier.thorough();
+    // "the result again satisfies the closure, inheritance and information-content properties" - not the ascending
+    // order of the id lists (C12's statement): the lists of a result are compared as sets
     ctx.rule = "case = one source ontology of family E (built with defaults from bytes, and without flags also build_minimal via the Builder) with every root and every leaf collection in the bound (all single leaves, all ordered pairs incl. duplicates; all subsets when n <= 5; thorough: all multisets of size 3); distinct by construction; non-trivial = source with a term reachable from a leaf by chains of different length or with a record on a modifier term".into();
     ctx.assumptions = vec![
         "modifier classification is taken from the source ontology (is_modifier); a build_minimal source has no modifier roots".into(),
         "the result's release version and categories are not specified and not compared".into(),
+        "which of several shortest chains of a leaf is retained is not specified: exact agreement of two calls (fixed point, handles of another instance) is demanded only when every leaf has a single shortest chain; otherwise the second result is judged by the same oracle on its own".into(),
+        "a replacement id whose target is not retained may be copied or cleared; the leaves are a collection in the sense of a set (handed over as Vec, lazy iterator, filtering adapter, &HpoSet in rotation)".into(),
     ];
     let kmax = if thorough { 4 } else { 3 };
     let family = family_e_opt(1, kmax, &[200, 7, 300, 150], true);
@@ -247,7 +392,7 @@ pub fn run(ctx: &mut Ctx) {
         let r = RefOnt::derive(f);
         let ids: Vec<u32> = f.terms.iter().map(|t| t.id).collect();
         let n = ids.len();
-        let up: BTreeMap<u32, BTreeMap<u32, usize>> = ids.iter().map(|i| (*i, r.up_distances(*i))).collect();
+        let up: Up = ids.iter().map(|i| (*i, r.up_distances(*i))).collect();
         let modifier_records = (0..3).any(|k| r.recs[k].values().any(|rec| rec.terms.iter().any(|t| r.is_modifier(*t, Mode::Defaults))));
         if modifier_records || f.edges.len() > n {
             ctx.nontrivial();
@@ -367,7 +512,26 @@ pub fn run(ctx: &mut Ctx) {
                 }
             }
         }
+        // the same on DECODED sources that carry flags (obsolete / replaced terms), every 3rd of them: the default roots
+        // replaced by one custom root through modifier_mut() - flags and custom roots together
+        if has_flag && n <= 5 && idx % 3 == 1 {
+            let free: Vec<u32> = ids.iter().copied().filter(|i| *i != 1 && *i != 118).collect();
+            for custom in free {
+                if let Ok(Ok(mut o)) = drive::from_bytes(&encode::encode(f, &EncOpts::v(3))) {
+                    *o.modifier_mut() = hpo::term::HpoGroup::new();
+                    o.modifier_mut().insert(custom);
+                    let roots: BTreeSet<u32> = [custom].into_iter().collect();
+                    for &root in &ids {
+                        for leaves in collections.iter().filter(|l| l.len() == 1) {
+                            let case = || json!({"family": what, "source": f.to_json(), "source_constructor": "from_bytes, then modifier_mut() = {custom root}", "custom_modifier_roots": [custom], "root": root, "leaves": leaves});
+                            check_one(ctx, &o, &r, Mode::Minimal, &up, root, leaves, &case, Some(&roots));
+                        }
+                    }
+                }
+            }
+        }
         ctx.sample(|| json!({"family": what, "source": f.to_json(), "roots": n, "leaf_collections": collections.len()}));
     }
+    same_named(ctx);
     large(ctx);
 }
